@@ -126,12 +126,20 @@ func (p *Profile) GetAttachments() string {
 		return p.Attachments[0]
 	default:
 		res := []string{}
+		quoted := false
 		for _, attachment := range p.Attachments {
+			if len(attachment) > 1 && strings.HasPrefix(attachment, `"`) && strings.HasSuffix(attachment, `"`) {
+				attachment = attachment[1 : len(attachment)-1]
+				quoted = true
+			}
 			if strings.HasPrefix(attachment, "/") {
 				res = append(res, attachment[1:])
 			} else {
 				res = append(res, attachment)
 			}
+		}
+		if quoted {
+			return `"/{` + strings.Join(res, ",") + `}"`
 		}
 		return "/{" + strings.Join(res, ",") + "}"
 	}
